@@ -497,6 +497,9 @@ VARIANT_TEXT = (" Representation probes (sub-checks 'variant_cells', 'variants')
                 "versus single-valued results; operands carrying the coherent rounding of ((X**8)**8)**8 versus the same operands "
                 "re-orthonormalised; a write through .A of a default-constructed object or of one Alloc slot must not change later default "
                 "objects / other slots; 3000 consecutive products stay valid and never raise.")
+OWN_TEXT = (" Result ownership (sub-checks 'ownership_cells', 'ownership'): a returned value belongs to the caller; after every array in it "
+            "is overwritten in place, the same call (and a second call of the table) on equal fresh inputs must return what it returned "
+            "before (no shared module-level constants, cached arrays or reused buffers); zero angles / identity inputs included.")
 AUG_TEXT = (" Augmented operators (sub-checks 'augmented_cells', 'augmented'): X op= Y must have exactly the outcome of X op Y (class, "
             "length, values, or the same exception class) for *=, /=, +=, -= on poses and *=, **= on quaternions, with right operands of "
             "the same class (1..4 values each side), every other class, scalars, vectors.")
@@ -512,6 +515,9 @@ def run(case, pid):
     if case["kind"] == "variant":
         from . import probes2
         return probes2.run(case, pid)
+    if case["kind"] == "own":
+        from . import probes3
+        return probes3.run(case, pid)
     if case["kind"] == "aug":
         c = Checker("aug")
         aug_check(c, case, pid)
@@ -525,6 +531,9 @@ def classify(case):
     if case["kind"] == "variant":
         from . import probes2
         return probes2.classify(case)
+    if case["kind"] == "own":
+        from . import probes3
+        return probes3.classify(case)
     if case["kind"] == "aug":
         return {"kind:aug": True, "aug:" + case["cls"] + case["op"]: True, "aug:right=" + case["rkind"]: True,
                 "aug:broadcast": case["rkind"] == "same" and len(case["us"]) != len(case["rus"]), "nontrivial": True}
@@ -538,8 +547,10 @@ def subs(pid, n=(40, 1500)):
     if pid in AUG_PROPS:
         out += [Sub("augmented_cells", gen=lambda tier: aug_cells(pid), shards=(2, 4)),
                 Sub("augmented", strategy=aug_strategy(pid), n=n, shards=(2, 8))]
-    from . import probes2
+    from . import probes2, probes3
     out += probes2.subs(pid)
+    if any(pid in t for _, t, _ in probes3.all_calls()):
+        out += probes3.subs(pid)
     return out
 
 
